@@ -147,6 +147,15 @@ class Abort(Exception):
     """Raised by the harness inside a with-block of the code under test."""
 
 
+class BaseAbort(BaseException):
+    """Leaves a with-block by an exception that is not an Exception subclass."""
+
+
+def abort_exception(n):
+    """The exception used to leave a block: Exception / bare BaseException / KeyboardInterrupt."""
+    return [Abort("injected"), BaseAbort("injected"), KeyboardInterrupt("injected")][n % 3]
+
+
 def cm_enter(check, cm):
     return impl(check, cm.__enter__)
 
